@@ -359,6 +359,18 @@ def configs(tier):
                                     c['m'] = n
                                 out.append((f'op-{cls}{pol}-{op}{"-r" if refl else ""}-n{n}-{"an" if an else "a"}-{okind}{"n" if bn else ""}-{vt}',
                                             scen_binop, c, {}))
+    # a longer plain container against a shorter object (a length-1 object included), every operator in both orders: must be rejected
+    for cls, pol in (('es', 1), ('os', 1), ('os', 2)):
+        for op in ('add', 'sub', 'mul'):
+            for refl in (False, True):
+                for okind in ('list', 'tuple'):
+                    for n in (1, 2):
+                        for an in ((False,) if q else (False, True)):
+                            if q and okind == 'tuple' and (pol == 2 or op == 'mul'):
+                                continue
+                            out.append((f'op-{cls}{pol}-{op}{"-r" if refl else ""}-n{n}-{"an" if an else "a"}-{okind}-longer', scen_binop,
+                                        dict(cls=cls, n=n, pol=pol, a_noise=an, vtype='float', op=op, other=okind, reflected=refl,
+                                             b_noise=False, m=n + 2), {}))
     # mixed dtype operands, every noise pattern, both orders of the wider/narrower dtype
     for a_vt, b_vt in (('int', 'float'), ('float', 'complex'), ('int', 'complex'), ('float', 'int'), ('complex', 'float')):
         for an in (False, True):
